@@ -34,6 +34,9 @@ func (r *ComDoc) readDir() error {
 	cooked := make([]DirEnt, count)
 	rootIndex := -1
 	for sector := r.Header.DirNextSector; sector >= 0; sector = r.SAT[sector] {
+		if int(sector) >= len(r.SAT) || len(files) >= count*len(r.SAT) {
+			return errors.New("invalid directory sector chain")
+		}
 		if err := r.readSectorStruct(sector, raw); err != nil {
 			return err
 		}
